@@ -65,9 +65,14 @@ fn gen_crlf_bytes(r: &mut Rng) -> Vec<u8> {
 fn ob(o: Option<bool>) -> &'static str { match o { None => "-", Some(true) => "1", Some(false) => "0" } }
 
 fn crlf_case(r: &mut Rng, w: &mut dyn Write) {
-    let b = gen_crlf_bytes(r);
+    let mut b = gen_crlf_bytes(r);
     let keep = *r.pick(&[None, Some(true), Some(false)]);
     let strip = *r.pick(&[None, None, Some(false), Some(true)]);
+    // with stripping on, half of the inputs are text whose only control bytes are LF and colour / style sequences (the decided class)
+    if strip == Some(true) && r.chance(1, 2) {
+        b = vec![];
+        for _ in 0..r.range(0, 16) { match r.below(7) { 0 => b.extend(b"\x1b[1m"), 1 => b.extend(b"\x1b[0m"), 2 => b.extend(b"\x1b[2;5;0;31;47m"), 3 => b.extend(b"\x1b[m"), 4 => b.push(b'\n'), _ => b.push(b'a' + r.below(26) as u8) } }
+    }
     let mut cfg = TestCaseConfig::empty(); cfg.keep_crlf = keep; cfg.strip_ansi_escaping = strip;
     let t = tc("x", cfg);
     let res = std::panic::catch_unwind(std::panic::AssertUnwindSafe(|| {
